@@ -6,6 +6,7 @@ mod bump;
 mod f64ops;
 mod frontend;
 mod lang;
+mod layout;
 mod limits;
 mod pipeline;
 mod pool;
@@ -29,6 +30,7 @@ fn main() -> ExitCode {
         "bump" => bump::run(&args[2], &args[3]),
         "f64" => f64ops::run(&args[2], &args[3]),
         "lang" => lang::run(&args[2..]),
+        "layout" => layout::run(&args[2..]),
         "limits" => limits::run(&args[2..]),
         "pipeline" => pipeline::run(&args[2..]),
         "pool" => pool::run(&args[2], &args[3]),
